@@ -62,12 +62,8 @@ def py_fmod_expected(a, b):
 
 
 def feq_mod(obs, exp):
-    """Equality for float % results: bit-exact except that the sign of a zero remainder is not fixed by the property."""
-    if not obs.startswith("x"):
-        return False
-    o = x2f(obs)
-    if exp == 0.0:
-        return o == 0.0
+    """Equality for float % results: bit-exact against CPython, including the sign of a zero remainder (the sign rule:
+    the result has the sign of the divisor)."""
     return obs == f2x(exp)
 
 
@@ -243,8 +239,7 @@ def run(tier):
         cov,
         assumptions=[
             "CPython's int //, % and float %, / and math.floor are the reference",
-            "sign of a zero float remainder is not asserted (the property fixes the sign rule for non-zero remainders)",
-            "float % pairs whose exact result is not representable (CPython itself returns |r| >= |b|) are outside the alphabet; NaN/Inf operands excluded (documented IEEE divergence)",
+                        "float % pairs whose exact result is not representable (CPython itself returns |r| >= |b|) are outside the alphabet; NaN/Inf operands excluded (documented IEEE divergence)",
             "i64::MIN // -1 excluded as the property states",
         ],
     )
